@@ -21,10 +21,22 @@ GEN = {
 }
 
 FIXTURES = {
-    "fixture:single": dict(front="single", data=dict(gen="fixture", name="single"), W=10, K=5, beta=dict(form="int", value=200),
-                           lam=dict(form="float", value=0.11), m=20, limit=1000, biased=False, eps=0, nproc=1, mp=False,
-                           rng_seed=0, init=None),
+    # the two pinned data sets with the suite's parameters (N=4, W=10, K=5, beta=200, seed 12345)
+    "single": dict(front="single", data=dict(gen="fixture", name="single", T=359), W=10, K=5, beta=dict(form="int", value=200),
+                   lam=dict(form="float", value=0.11), m=20, limit=1000, biased=False, eps=0, nproc=5, mp=False,
+                   rng_seed=12345, init=None),
+    "multi": dict(front="joint", data=dict(gen="fixture", name="multi", T=[0] * 10), W=10, K=5, beta=dict(form="int", value=200),
+                  lam=dict(form="float", value=0.11), m=20, limit=1000, biased=False, eps=0, nproc=5, mp=False,
+                  rng_seed=12345, init=None, container="list"),
+    # a variant that the suite never runs: 3 of the series, biased estimator, 3-process pool, vector-free beta
+    "multi3": dict(front="joint", data=dict(gen="fixture", name="multi", nseries=3, T=[0] * 3), W=10, K=4, beta=dict(form="float", value=50.0),
+                   lam=dict(form="float", value=0.11), m=20, limit=20, biased=True, eps=0, nproc=3, mp=True,
+                   rng_seed=7, init=None, container="tuple"),
 }
+
+
+def fixture_specs():
+    return [dict(name="fixture-" + k, mode="interp", what="fixture", which=k, timeout=3000) for k in FIXTURES]
 
 
 def plan_e2e(seed, tag, mix, total, shards=None, extra=None, timeout=None, nwcap=12):
@@ -42,6 +54,10 @@ def plan_e2e(seed, tag, mix, total, shards=None, extra=None, timeout=None, nwcap
 
 
 def run_e2e_shard(spec, res, props, nontrivial, coverage_props=None):
+    if spec.get("what") == "fixture":
+        e2e_check.run_cases(res, [dict(FIXTURES[spec["which"]])], props, nontrivial, coverage_props=())
+        res.count("fixture_runs")
+        return
     wc.NW_CAP[0] = int(spec.get("nwcap", 12))
     gens = [(w, GEN[name]) for name, w in spec["mix"].items()]
     stream = e2e_check.case_stream(spec["seed"], spec["n"], gens)
